@@ -435,6 +435,47 @@ func (t *textCtx) mayNL1(v ssa.Value) bool {
 			return false
 		case pkg == "strconv" && (name == "Itoa" || name == "FormatInt" || name == "Quote"):
 			return false
+		case (pkg == "strings" && name == "Builder.String" || pkg == "bytes" && name == "Buffer.String") && len(x.Call.Args) == 1:
+			// the text of a builder local to the function: a newline must come from one of the writes into it
+			al, isAl := x.Call.Args[0].(*ssa.Alloc)
+			if !isAl || x.Parent() == nil {
+				return true
+			}
+			for _, ref := range *al.Referrers() {
+				switch rr := ref.(type) {
+				case *ssa.Call:
+					if p2, _ := stdCallee(&rr.Call); p2 != "strings" && p2 != "bytes" && p2 != "fmt" && p2 != "io" {
+						return true // handed to code the analysis does not see
+					}
+				case *ssa.MakeInterface:
+					for _, r2 := range *rr.Referrers() {
+						c2, isCall := r2.(*ssa.Call)
+						if !isCall {
+							return true
+						}
+						if p2, _ := stdCallee(&c2.Call); p2 != "fmt" && p2 != "io" {
+							return true
+						}
+					}
+				case *ssa.DebugRef:
+				default:
+					return true
+				}
+			}
+			nl := false
+			sink := sinkOf(al)
+			allInstrs(x.Parent(), func(ins ssa.Instruction) {
+				em := t.emissionOf(ins)
+				if em == nil || em.Sink != sink {
+					return
+				}
+				for _, a := range em.Text {
+					if strings.Contains(a, "\n") || strings.ContainsRune(a, mAny) {
+						nl = true
+					}
+				}
+			})
+			return nl
 		case pkg == "strings" && name == "Join" && len(x.Call.Args) == 2:
 			if t.mayNL(x.Call.Args[1]) {
 				return true
